@@ -254,6 +254,7 @@ func runC06(c *eng.Ctx) {
 	})
 
 	c.Rule("GUARD", "pkg/queue.queue.persistMetaOfMessage{cached index page = page of the sequence}", func() { cachedIndexPageRule(c) })
+	c.Rule("ORDER", "pkg/queue.NewConsumerGroup{meta probed before the page is created}", func() { existenceProbedBeforeCreate(c, "pkg/queue.NewConsumerGroup", "") })
 
 	// ---- group meta page layout -----------------------------------------------------------------
 	c.Rule("LAYOUT", "pkg/queue.consumer-group-meta", func() {
@@ -342,32 +343,7 @@ func runC06(c *eng.Ctx) {
 				"facts: "+strings.Join(facts.Render(fs), " ; "))
 		}
 	})
-	c.Rule("PROV", qT+".GC", func() {
-		f := c.Fn(qT + ".GC")
-		ack := c.One(f, eng.Any(eng.CallTo(qT+".AcknowledgedSeq"), func(_ *eng.Prog, in ssa.Instruction) bool {
-			fa, method, _ := eng.AtomicOp(in)
-			return fa != nil && method == "Load" && eng.FieldKeyOfAddr(fa) == qT+".acknowledgedSeq"
-		}), "read of the queue ack").Instr.(*ssa.Call)
-		facts := p.MustFacts(f)
-		for i, s := range c.Some(f, invokeOn("", "TruncatePages"), "TruncatePages calls") {
-			arg := eng.CallArgs(s.Instr.(*ssa.Call))[0]
-			c.Check(eng.DependsOn(arg, func(x ssa.Value) bool { return x == ssa.Value(ack) }), fmt.Sprintf("from-ack[%d]", i), s.Instr, f,
-				"the truncation bound derives from the queue's acknowledged sequence", "bound "+p.Desc(arg))
-			c.Check(facts.Prove("le", zeroLike(ack), ack, s.Instr), fmt.Sprintf("ack>=0[%d]", i), s.Instr, f,
-				"nothing is truncated while the ack is negative (empty queue)", "facts: "+strings.Join(facts.Render(facts.At(s.Instr)), " ; "))
-		}
-		// the index page bound is ack / entries-per-page with the same constant the writer uses
-		ip := c.One(f, invokeOn(".indexPageFct", "TruncatePages"), "indexPageFct.TruncatePages").Instr.(*ssa.Call)
-		bound := eng.Unwrap(eng.ThroughHelper(eng.CallArgs(ip)[0]))
-		nv, _ := p.ConstInt64("pkg/queue", "indexItemsPerPage")
-		okB := false
-		if bo, isB := bound.(*ssa.BinOp); isB && bo.Op == token.QUO {
-			if k, isC := eng.ConstInt(bo.Y); isC && k == nv {
-				okB = eng.DependsOn(bo.X, func(x ssa.Value) bool { return x == ssa.Value(ack) })
-			}
-		}
-		c.Check(okB, "index-page-bound", ip, f, "index pages are truncated strictly below the page holding the ack entry (ack / entries-per-page)", "bound "+p.Desc(bound))
-	})
+	c.Rule("PROV", qT+".GC", func() { gcBoundFromAck(c) })
 
 	// ---- OWNER: who may store positions / truncate ---------------------------------------------
 	c.Rule("OWNER", "pkg/queue.positions", func() {
@@ -590,8 +566,43 @@ func resetInOneHold(c *eng.Ctx, fnKey, mu string, fields []string, src string) {
 				ok, why := ls.SameHold(first, st.Instr, mu, true)
 				c.Check(ok, "one-hold:"+fld, st.Instr, f, "all positions are reset in one write hold", why)
 			}
+			c.Check(p.MustPass(f, eng.StoreField(fld), 0), "always-reset:"+fld, st.Instr, f,
+				"an explicit reset moves this position on every path: the queue-wide positions have already been moved to the requested value, a group position left behind would be overtaken by them", "the store is conditional")
 			// a reset position is persisted like any other position change (a reopen restores the pair that was reset)
 			metaFollows(c, f, st.Instr, v, ".metaPage", mu)
 		}
 	})
+}
+
+func gcBoundFromAck(c *eng.Ctx) {
+	p := c.P
+	_ = p
+	f := c.Fn(qT + ".GC")
+	ack := c.One(f, eng.Any(eng.CallTo(qT+".AcknowledgedSeq"), func(_ *eng.Prog, in ssa.Instruction) bool {
+		fa, method, _ := eng.AtomicOp(in)
+		return fa != nil && method == "Load" && eng.FieldKeyOfAddr(fa) == qT+".acknowledgedSeq"
+	}), "read of the queue ack").Instr.(*ssa.Call)
+	facts := p.MustFacts(f)
+	for i, s := range c.Some(f, invokeOn("", "TruncatePages"), "TruncatePages calls") {
+		arg := eng.CallArgs(s.Instr.(*ssa.Call))[0]
+		c.Check(eng.DependsOn(arg, func(x ssa.Value) bool { return x == ssa.Value(ack) }), fmt.Sprintf("from-ack[%d]", i), s.Instr, f,
+			"the truncation bound derives from the queue's acknowledged sequence", "bound "+p.Desc(arg))
+		// … and from nothing the WRITER moves: the ack was read in an earlier lock hold, appends may have happened since; the
+		// writer's current page is ahead of every message appended in between
+		c.Check(!eng.DependsOnField(arg, qT+".dataPageIndex", qT+".messageOffset", qT+".appendedSeq"), fmt.Sprintf("not-from-the-write-cursor[%d]", i), s.Instr, f,
+			"the truncation bound is the page named by the acknowledged message's index entry, never the writer's current page / position", "bound "+p.Desc(arg))
+		c.Check(facts.Prove("le", zeroLike(ack), ack, s.Instr), fmt.Sprintf("ack>=0[%d]", i), s.Instr, f,
+			"nothing is truncated while the ack is negative (empty queue)", "facts: "+strings.Join(facts.Render(facts.At(s.Instr)), " ; "))
+	}
+	// the index page bound is ack / entries-per-page with the same constant the writer uses
+	ip := c.One(f, invokeOn(".indexPageFct", "TruncatePages"), "indexPageFct.TruncatePages").Instr.(*ssa.Call)
+	bound := eng.Unwrap(eng.ThroughHelper(eng.CallArgs(ip)[0]))
+	nv, _ := p.ConstInt64("pkg/queue", "indexItemsPerPage")
+	okB := false
+	if bo, isB := bound.(*ssa.BinOp); isB && bo.Op == token.QUO {
+		if k, isC := eng.ConstInt(bo.Y); isC && k == nv {
+			okB = eng.DependsOn(bo.X, func(x ssa.Value) bool { return x == ssa.Value(ack) })
+		}
+	}
+	c.Check(okB, "index-page-bound", ip, f, "index pages are truncated strictly below the page holding the ack entry (ack / entries-per-page)", "bound "+p.Desc(bound))
 }
